@@ -71,10 +71,14 @@ LONG = {256: 'L' * 256, 300: 'M' * 300}
 def cases(shard, tier):
     fam, ctx = shard['family'], shard['ctx']
     if fam == 'rows':
-        for (ra, rb) in ((3, 2), (2, 3), (3, 1), (1, 3), (4, 3)):
+        for (ra, rb) in ((3, 2), (2, 3), (3, 1), (1, 3), (4, 3), (5, 3), (5, 4), (6, 2)):
             for chunk in (None, 1, 2, 3):
                 for src in ('inline', 'dict', 'h5'):
-                    yield {'family': fam, 'ctx': ctx, 'ra': ra, 'rb': rb, 'chunk': chunk, 'src': src, 'must': True}
+                    for win in (None, (1, None), (2, None), (1, 3), (3, None), (2, 4)):
+                        if win and (win[0] >= ra or (win[1] or ra) > ra):
+                            continue
+                        yield {'family': fam, 'ctx': ctx, 'ra': ra, 'rb': rb, 'chunk': chunk, 'src': src, 'win': win,
+                               'must': True}
     elif fam == 'dtype':
         for dt in ('int64', 'uint64', 'float16', 'bool', 'complex64', 'object', '<U3'):
             for src in ('inline', 'dict', 'h5', 'struct'):
@@ -139,6 +143,10 @@ def make_spec(c):
         _put(sp, c['src'], {'CHAN-A': a, 'CHAN-B': b})
         if c['chunk']:
             sp['write']['input_chunk_size'] = c['chunk']
+        if c.get('win'):
+            sp['write']['from_idx'] = c['win'][0]
+            if c['win'][1] is not None:
+                sp['write']['to_idx'] = c['win'][1]
         return sp
     if fam == 'dtype':
         sp = base(ctx, src=c['src'])
@@ -301,7 +309,8 @@ def full_check(sp, data, c):
 def aspect(c):
     f = c['family']
     if f == 'rows':
-        return ('shorter' if c['rb'] < c['ra'] else 'longer') + ('-len1' if 1 in (c['ra'], c['rb']) else '')
+        return ('shorter' if c['rb'] < c['ra'] else 'longer') + ('-len1' if 1 in (c['ra'], c['rb']) else '') + \
+            ('-window' if c.get('win') else '')
     if f == 'dtype':
         return c['dt']
     if f == 'ndim':
